@@ -40,6 +40,12 @@ def run(pid: str, tier: str, seed: int, replay: str | None) -> int:
     if pid == 'C07':
         from . import pair_drv
         return pair_drv.run_C07(tier, seed)
+    if pid == 'C18':
+        from . import snapshot_drv
+        return snapshot_drv.run_C18(tier, seed)
+    if pid == 'C04':
+        from . import closed_drv
+        return closed_drv.run_C04(tier, seed)
     if pid == 'C12':
         from . import pair_drv
         return pair_drv.run_C12(tier, seed)
